@@ -293,11 +293,37 @@ theorem unescape_complete {s d : List Byte} (h : Chars s d) :
 
 /-! ### whole string tokens -/
 
+theorem mem_takeWhile_imp {p : Byte → Bool} {l : List Byte} {b : Byte} (h : b ∈ l.takeWhile p) : p b = true := by
+  induction l with
+  | nil => simp at h
+  | cons a l ih =>
+    by_cases ha : p a
+    · simp only [List.takeWhile_cons, ha, if_true, List.mem_cons] at h
+      rcases h with h | h
+      · rw [h]; exact ha
+      · exact ih h
+    · simp [ha] at h
+
+/-- what `dropTrailingWs` removes is whitespace at the end -/
+theorem dropTrailingWs_spec (bs : List Byte) : ∃ w, bs = dropTrailingWs bs ++ w ∧ AllWs w := by
+  refine ⟨(bs.reverse.takeWhile isWs).reverse, ?_, ?_⟩
+  · unfold dropTrailingWs
+    rw [← List.reverse_append, List.takeWhile_append_dropWhile, List.reverse_reverse]
+  · intro b hb
+    exact mem_takeWhile_imp (List.mem_reverse.mp hb)
+
+theorem dropTrailingWs_concat (xs : List Byte) {c : Byte} (hc : isWs c = false) :
+    dropTrailingWs (xs ++ [c]) = xs ++ [c] := by
+  unfold dropTrailingWs
+  simp [hc]
+
+/-- the validator accepts `tok` iff `tok` minus trailing whitespace is a JSON string -/
 theorem parseStringBytes_sound {bs d : List Byte} (h : parseStringBytes bs = some d) :
-    IsString bs d := by
+    IsString (dropTrailingWs bs) d := by
   unfold parseStringBytes at h
   split at h
-  · rename_i rest
+  · rename_i rest heq
+    rw [heq]
     split at h
     · rename_i hl
       obtain ⟨ys, rfl⟩ := List.getLast?_eq_some_iff.mp hl
@@ -310,8 +336,11 @@ theorem parseStringBytes_complete {bs d : List Byte} (h : IsString bs d) :
     parseStringBytes bs = some d := by
   cases h with
   | mk s d hc =>
-    show parseStringBytes (34 :: (s ++ [34])) = some d
-    simp only [parseStringBytes, List.getLast?_concat, List.dropLast_concat]
+    have hd : dropTrailingWs (34 :: s ++ [34]) = 34 :: (s ++ [34]) := by
+      rw [dropTrailingWs_concat _ (by decide)]; rfl
+    unfold parseStringBytes
+    rw [hd]
+    simp only [List.getLast?_concat, List.dropLast_concat]
     exact unescape_complete hc _ (by simp only [List.length_append, List.length_singleton]; omega)
 
 /-! ### the lax scanner's view of a string body -/
